@@ -31,7 +31,7 @@ PLAN = {
 # properties whose unbounded theorems cover only part of the statement (what is missing is decided by the
 # correspondence + oracle on every run and spelled out in MANIFEST.json / DESIGN.md)
 PARTIAL = {
-    "C09": "the numeric message bound is proved for component and parent-link traffic (host and client writers); for entity and asset traffic the theorems are the no-echo invariants of C01 / C06, the count is an oracle check",
+    "C09": "the numeric message bound is proved for component, parent-link and downloadable-asset traffic (host and client writers); for entity and material traffic the theorems are the no-echo / absorption invariants of C01 / C06, the count is an oracle check",
 }
 
 TRUSTED = [
@@ -263,7 +263,8 @@ def check(prop_id, tier, seed, replay=None):
             "samples": [sample],
             "traces_validated_against_impl": validated,
             "disagreements_checked": len(mismatches),
-            "implementation_oracle_failures": len([1 for h, f in oracle_fails if f[0] == prop_id]),
+            "implementation_oracle_failures": len([1 for h, f in oracle_fails if f[0] == prop_id]) - len(known_lines),
+            "known_finding_instances": len(known_lines),
             "input_distribution": dist,
             "known_findings_replayed": len(known_lines),
             "build_s": {"lean": proof.get("build_s"), "harness": hbuild_s},
@@ -275,9 +276,12 @@ def check(prop_id, tier, seed, replay=None):
         "violations": len(violations),
     }
     C.write_evidence(prop_id, ev)
-    print("%s %s: proof %s (%d theorems, %d examples), translator %s, %d histories (%d frames), %d slice instances vs model: %d mismatches, %d oracle failures, %.0fs"
+    n_or = len([1 for h, f in oracle_fails if f[0] == prop_id])
+    n_known = len(known_lines)
+    print("%s %s: proof %s (%d theorems, %d examples), translator %s, %d histories (%d frames), %d slice instances vs model: %d mismatches, %d oracle failures%s, %.0fs"
           % (prop_id, tier, "ok" if proof["ok"] else "BROKEN", len(thms), proof.get("examples", 0), "ok" if ok_t else "BROKEN",
-             len(histories), frames, len(inst_of), len(mismatches), len([1 for h, f in oracle_fails if f[0] == prop_id]), time.time() - t0))
+             len(histories), frames, len(inst_of), len(mismatches), n_or - n_known,
+             (" (+ %d instances of recorded findings)" % n_known) if n_known else "", time.time() - t0))
     for k in sorted(set(known_lines)):
         print(k)
     for v in violations:
